@@ -82,6 +82,11 @@ def main():
     chk.require_goals(["law-with-decisions", "symmetry-clean", "symmetry-proviso-excluded", "conflict"])
     chk.assumptions += ["the symmetry proviso is evaluated on nbdime's own diffs of the path",
                         "open known findings excluded: %s" % ", ".join(kn)]
+    if True:
+        from . import xh_cross
+        xh_cross.run(chk, ["adoption", "agreement"], PROP)
+        chk.assumptions.append("CrossHair (E1) conditions are a cross-check by a second engine on List[int] inputs with symbolic "
+                               "lengths <= 3; only 'Confirmed over all paths' counts as agreement; its timeouts do not affect the verdict")
     return chk.finish()
 
 
